@@ -386,6 +386,54 @@ def constants_and_defaults(ctx: Ctx) -> None:
         if not (r.k is dflt or r.k == dflt or (r.k != r.k and dflt != dflt)):  # noqa: PLR0124
             ctx.violation({"what": "parameter_default_not_preserved", "default_type": type(dflt).__name__}, f"default {dflt!r} arrived as {r.k!r}", {})
     ctx.extra["constant_and_default_cases"] = len(values) + 5
+    keyword_destination_parameters(ctx)
+
+
+def keyword_destination_parameters(ctx: Ctx) -> None:
+    """destination parameters / source keys whose name is a keyword or no identifier (TypedDict keys, pydantic aliases) are data
+    for the generated converter: passed to the constructor, never written as `name=` into the source"""
+    from typing import TypedDict
+
+    import pydantic
+
+    from adaptix.conversion import get_converter
+    n = 0
+    for kw in ("class", "from", "None", "match", "lambda"):
+        TD = TypedDict("TD", {"a": int, kw: str})                              # noqa: UP013
+        S = dataclasses.make_dataclass("S", [("a", int), (kw + "_", str)])
+        ns = {"pydantic": pydantic}
+        exec(f"class M(pydantic.BaseModel):\n    a: int\n    {kw}_: str = pydantic.Field(alias={kw!r})\n", ns)  # noqa: S102
+        M = ns["M"]
+        TD_ = TypedDict("TD_", {"a": int, kw + "_": str})                      # noqa: UP013
+        for name, src_t, dst_t, src, want in (
+            ("typeddict_to_typeddict", TD, TD, {"a": 1, kw: "x"}, {"a": 1, kw: "x"}),
+            ("typeddict_to_dataclass", TD_, S, {"a": 1, kw + "_": "x"}, S(1, "x")),
+            ("dataclass_to_pydantic_alias", S, M, S(1, "x"), M(**{"a": 1, kw: "x"})),
+            ("pydantic_alias_to_pydantic_alias", M, M, M(**{"a": 1, kw: "x"}), M(**{"a": 1, kw: "x"})),
+        ):
+            n += 1
+            try:
+                got = get_converter(src_t, dst_t)(src)
+            except Exception as e:  # noqa: BLE001
+                ctx.violation({"what": "keyword_name_breaks_converter_generation", "shape": name, "exc": type(e).__name__},
+                              f"{name} with the name {kw!r}: {type(e).__name__}: {str(e)[:160]}", {"name": kw, "shape": name})
+                continue
+            if got != want:
+                ctx.violation({"what": "keyword_name_wrong_result", "shape": name}, f"{name} with the name {kw!r}: {got!r} instead of {want!r}", {"name": kw})
+    for alias in ("my-x", "with space", "1abc", "it's", ""):
+        ns = {"pydantic": pydantic}
+        exec(f"class M(pydantic.BaseModel):\n    a: int\n    f: str = pydantic.Field(alias={alias!r})\n", ns)  # noqa: S102
+        M = ns["M"]
+        S = dataclasses.make_dataclass("S", [("a", int), ("f", str)])
+        n += 1
+        try:
+            got = get_converter(S, M)(S(1, "x"))
+            if not (got.a == 1 and got.f == "x"):
+                ctx.violation({"what": "keyword_name_wrong_result", "shape": "non_identifier_alias"}, f"alias {alias!r}: {got!r}", {"alias": alias})
+        except Exception as e:  # noqa: BLE001
+            ctx.violation({"what": "keyword_name_breaks_converter_generation", "shape": "non_identifier_alias", "exc": type(e).__name__},
+                          f"dataclass -> pydantic model with alias {alias!r}: {type(e).__name__}: {str(e)[:160]}", {"alias": alias})
+    ctx.replayed += n
 
 
 def between_kinds(ctx: Ctx) -> None:
